@@ -683,7 +683,9 @@ def run_property(pid, tier, repo=REPO, keep=False, quiet_evidence=False, record_
             shutil.rmtree(scratch, ignore_errors=True)
             shutil.rmtree(target + "-playback", ignore_errors=True)
     # ---------------- evidence + verdict
-    obl = [e for e in results.values() if e.get("kind") != "canary"]
+    # a harness pinned to a recorded open finding is reported (KNOWN-FINDING) but is not counted
+    # among the obligations of the proof claim
+    obl = [e for e in results.values() if e.get("kind") != "canary" and e["verdict"] != "known_finding"]
     discharged = [e for e in obl if e["verdict"] == "discharged"]
     wall = time.time() - t0
     if evidence:
@@ -800,6 +802,7 @@ def write_evidence(pid, tier, cfg, units, results, obl, discharged, undecided, v
         "not_decided": cfg.get("not_decided", []),
         "undecided_this_run": [{"obligation": o, "reason": w} for o, w in undecided],
         "known_findings_reported": known_lines,
+        "known_finding_obligations": [e["id"] for e in results.values() if e["verdict"] == "known_finding"],
         "peak_solver_rss_mb": peak_kb // 1024,
         "tools": tools,
         "samples": samples,
